@@ -206,7 +206,8 @@ def split_contract():
         return res
 
     return guard(FnContract(
-        target=f"{MBOX}::_split_mbox_messages",
+        target=f"{MBOX}::{M.splitter_name()}",          # (round 8) located by its role; the ids keep the written name
+        oid_name=M.SPLITTER,
         params=[("data", p_str())],
         hyps=hyp,
         ensures=[("one-message-per-nonempty-slice-between-separators", e_count),
